@@ -61,6 +61,7 @@ pub fn verif_expect_semicolon_or_last(
         stream,
         diagnostics,
         standard: crate::standard::VHDLStandard::default(),
+        depth: 0,
     };
     expect_semicolon_or_last(&mut ctx)
 }
@@ -78,6 +79,7 @@ pub fn verif_or_recover_until(
         stream,
         diagnostics,
         standard: crate::standard::VHDLStandard::default(),
+        depth: 0,
     };
     let result: crate::data::DiagnosticResult<()> = Err(err);
     result.or_recover_until(&mut ctx, |kind| kinds.contains(&kind))
